@@ -313,6 +313,35 @@ impl Space for Ranges {
                 }
             }
         }
+        // a public consumer of the corners: set_style_by_range on whole rows / whole columns must style exactly the
+        // rows (columns) between the two corners
+        if (rc.shape == "row:row" || rc.shape == "col:col") && want_ce.unwrap_or(0) - want_cs.unwrap_or(0) <= 64 && want_re.unwrap_or(0) - want_rs.unwrap_or(0) <= 64 {
+            let t = rc.text.clone();
+            let rows_shape = rc.shape == "row:row";
+            let got = guarded(move || {
+                let mut book = umya_spreadsheet::new_file();
+                let ws = book.get_sheet_mut(&0).unwrap();
+                let mut st = umya_spreadsheet::Style::default();
+                st.get_font_mut().set_bold(true);
+                ws.set_style_by_range(&t, st);
+                let mut v: Vec<u32> = if rows_shape {
+                    ws.get_row_dimensions().iter().filter(|r| *r.get_style().get_font().map(|f| f.get_bold()).unwrap_or(&false)).map(|r| *r.get_row_num()).collect()
+                } else {
+                    ws.get_column_dimensions().iter().filter(|c| *c.get_style().get_font().map(|f| f.get_bold()).unwrap_or(&false)).map(|c| *c.get_col_num()).collect()
+                };
+                v.sort();
+                (v, ws.get_cell_collection().len())
+            });
+            let want: Vec<u32> = if rows_shape { (want_rs.unwrap()..=want_re.unwrap()).collect() } else { (want_cs.unwrap()..=want_ce.unwrap()).collect() };
+            match got {
+                Err(m) => sink.violations.push(Violation::new("range-corners-consumer", &format!("panic:{}", panic_class(&m)), &tags, case.clone(), format!("set_style_by_range({:?}) panicked: {}", rc.text, m))),
+                Ok((v, cells)) => {
+                    if v != want || cells != 0 {
+                        sink.violations.push(Violation::new("range-corners-consumer", "styled-set-differs", &tags, case.clone(), format!("set_style_by_range({:?}) styled {:?} (and {} cells), expected {:?}", rc.text, v, cells, want)));
+                    }
+                }
+            }
+        }
         // helper::range corners: (row_start,row_end,col_start,col_end); an absent axis is not pinned by the statement
         match guarded(move || get_start_and_end_point(&text2)) {
             Err(m) => sink.violations.push(Violation::new("range-corners-helper", &format!("panic:{}", panic_class(&m)), &tags, case.clone(), format!("get_start_and_end_point({:?}) panicked: {}", rc.text, m))),
